@@ -7,11 +7,8 @@ import sys,os,glob,re,subprocess
 D=sys.argv[1]
 os.makedirs(D,exist_ok=True)
 AREAS={
- 'par2dec':"par2/decoder.go: sliceAndPadByteArray, makeChecksumShardLocationMap, checksumShardLocationMap.put/get, fillShardInfos, newCoderAndShards (both branches), Decoder.Repair (reassembly buffer, hash checks, write loop), ShardCounts",
- 'par2enc':"par2/file.go readFile and writeFile; par2/packet.go (readNextPacket, writeNextPacket, checkPacketHeader, computePacketHash); par2/main_packet.go (fileIDLess, read/writeMainPacket, checkFileIDSetsSorted); par2/recovery_packet.go; par2/ifsc_packet.go",
- 'par1':"par1/decoder.go: FileCounts, VerifyAllData, Repair (write loop and bookkeeping), LoadParityData; par1/encoder.go: LoadFileData, buildShards, Write; par1/repair.go, par1/verify.go",
- 'field':"rsec16/matrix.go: applyMatrixSlice, applyMatrixSingle, applyMatrixParallelOut, applyMatrixParallelData, calculateParallelParams; rsec16/coder.go: GenerateParity, ReconstructData; gf2p16/matrix.go: swapRows, scaleRow, addScaledRow, Times, clone, rowReduceForInverse",
- 'cli':"cmd/par/main.go: the logging delegates (par1Log*/par2Log* types and their methods), printUsageAndExit and the print*ErrorAndExit helpers, the flag set constructors, processRepairChecker and processRepairResultAndExit",
+ 'par2dec':"par2/decoder.go: (*Decoder).Repair as a whole - the reconstruction call, the parity double-check block, the wasOK / redistribution loop, the write loop and its returns -, newCoderAndShards, ShardCounts, fileIntegrityInfo.ok / allShardsOK, fillFileIntegrityInfos; par2/repair.go and par2/verify.go",
+ 'par1':"par1/file_entry.go (readFileEntry, writeFileEntry, encodeUTF16LEString, decodeUTF16LEString, fileEntryHeader), par1/volume.go (readVolume, writeVolume), par1/header.go, par1/decoder.go: Repair and VerifyAllData, LoadFileData's per-file closure",
 }
 T='''# Task: behaviour-preserving refactors of gopar
 
